@@ -150,7 +150,7 @@ func genScopes(r *vgen.Rand) []instrumentation.Scope {
 		out = append(out, instrumentation.Scope{})
 	}
 	for i := 0; i < n; i++ {
-		if i > 0 && r.Chance(1, 3) {
+		if i > 0 && r.Chance(1, 2) {
 			base := out[len(out)-1]
 			switch r.Intn(3) {
 			case 0:
